@@ -128,6 +128,12 @@ func (o *oracle) txnMetricsSnapshot() metrics.TxnMetrics {
 }
 
 func (o *oracle) readTs() uint64 {
+	// Choosing the read timestamp and registering it with the read watermark is one
+	// step with respect to commits: newCommitTs prunes the conflict history up to
+	// readMark.DoneUntil() under the same lock, and a reader that registered late
+	// (after newer readers had come and gone) would find the commits it overlaps
+	// already pruned and could overwrite them without a conflict.
+	o.Lock()
 	readTs := o.nextTxnTs.Load() - 1
 	utils.VerifYield("orc.readTs.afterNext")
 	if last := o.txnMark.LastIndex(); last < readTs {
@@ -135,6 +141,7 @@ func (o *oracle) readTs() uint64 {
 	}
 	utils.VerifYield("orc.readTs.afterClamp")
 	o.readMark.Begin(readTs)
+	o.Unlock()
 
 	// Wait for all txns which have no conflicts, have been assigned a commit
 	// timestamp and are going through the write to value log and LSM tree
